@@ -30,13 +30,11 @@
   (d)  `C11_crack_is_sewn`: the witness of the known finding C11-crack (two 2-free sides running
        between the same two vertices in opposite directions are sewn by export + import).
 
-  NOT PROVED (validated by the oracles of tools/props/c11.py on the implementation, see SPEC["not_proved"]):
-  * totality of the import of a conforming list (no `unwrap` fires: the orientation test passes because
-    the two end points differ, the merges are defined) and the coordinates after ALL sews (the induction
-    over the sew loop needs "new vertex orbit = union of the two old ones, new id = the smaller id" for
-    every step, i.e. the cell calculus of Lemmas/CellCalc.lean, plus a forward construction of each
-    successful run); the one-step lemma is (a3);
-  * (c) the composition theorem `importCells (exportPiece m) ≅ m`.
+  CONTINUED in Props/C11b.lean ((a6) `C11_import_conforming_ok`: the import of a conforming list is total and
+  keeps every coordinate through all the sews) and Props/C11c.lean ((c1)–(c4): export in closed form, and the
+  composition export → import on meshes without cracks: per-face copy, adjacency, bijection).
+
+  NOT PROVED: see SPEC["not_proved"] of tools/props/c11.py (vtkio and float rounding are outside the model).
 -/
 import Honeycomb.Model.Vtk
 import Honeycomb.Props.C01
